@@ -31,11 +31,19 @@ type c10Op struct {
 	Wh  int    `json:"wh,omitempty"`
 }
 
+// c10Wr makes the handle under test a read-write handle that created its file: the cursor it carries into the
+// Read/Seek sequence was left by a Write, possibly one that started beyond the end of the file.
+type c10Wr struct {
+	Gap int `json:"gap"`
+	N   int `json:"n"`
+}
+
 type c10Case struct {
 	FS    string  `json:"fs"`
 	Size  int     `json:"size"`
 	Frag  bool    `json:"frag"`
 	Start int64   `json:"start,omitempty"` // offset of the filesystem inside a larger device
+	Wr    *c10Wr  `json:"wr,omitempty"`    // the handle under test first writes its own file: Seek(Gap), Write(N bytes)
 	Ops   []c10Op `json:"ops"`
 }
 
@@ -338,6 +346,12 @@ func genC10(t *rapid.T) any {
 	}
 	c.Frag = rapid.Bool().Draw(t, "frag")
 	c.Start = rapid.SampledFrom([]int64{0, 0, 1 << 20}).Draw(t, "start")
+	switch c.FS {
+	case "fat12", "fat16", "fat32", "ext4-1k":
+		if rapid.IntRange(0, 11).Draw(t, "writeFirst") == 0 {
+			c.Wr = &c10Wr{Gap: rapid.SampledFrom([]int{0, 0, 1, u - 1, u, 2*u + 7}).Draw(t, "wrGap"), N: rapid.SampledFrom([]int{1, 100, u, 2*u + 3}).Draw(t, "wrN")}
+		}
+	}
 	lens := []int{0, 1, 3, 7, u - 1, u, u + 1, 2*u + 5, 100, 1 << 20}
 	nops := rapid.IntRange(1, 24).Draw(t, "nops")
 	for i := 0; i < nops; i++ {
@@ -397,9 +411,50 @@ func execC10(ci any) (r hx.Result) {
 		return
 	}
 	data := im.bytes
+	pos := int64(0)
+	if c.Wr != nil {
+		// a private copy of the volume, a new file, one Seek and one Write on the handle that is then examined
+		r.Class("handle:wrote-first")
+		f.Close()
+		d2 := im.d.Clone()
+		wdata := mk.Content{Seed: uint32(c.Wr.N)*3 + 5, Len: c.Wr.N, Style: 0}.Bytes()
+		var werr error
+		if p, v, st := hx.Safe(func() {
+			var wfs filesystem.FileSystem
+			name := "/NEWW.BIN"
+			if c.FS == "ext4-1k" {
+				var x *ext4.FileSystem
+				x, werr = ext4.Read(d2, im.size, c.Start, 512)
+				wfs, name = x, "neww.bin"
+			} else {
+				wfs, werr = mk.ReadFAT(c.FS, d2, im.size, c.Start, 512)
+			}
+			if werr != nil {
+				return
+			}
+			if f, werr = wfs.OpenFile(name, os.O_CREATE|os.O_RDWR); werr != nil {
+				return
+			}
+			if c.Wr.Gap > 0 {
+				if _, werr = f.Seek(int64(c.Wr.Gap), io.SeekStart); werr != nil {
+					return
+				}
+			}
+			_, werr = f.(io.Writer).Write(wdata)
+		}); p {
+			r.Fail("write-panic", "creating and writing a file on %s panicked: %v [%s]", c.FS, v, st)
+			return
+		}
+		if werr != nil {
+			r.Discard = true
+			r.Note("write-first prelude refused: %v", werr)
+			return
+		}
+		data = append(make([]byte, c.Wr.Gap), wdata...)
+		pos = int64(len(data))
+	}
 	size := int64(len(data))
 	unit := int64(c10Unit(c.FS))
-	pos := int64(0)
 	closed := false
 	afterSeekEnd := false
 	for i, op := range c.Ops {
